@@ -15,6 +15,43 @@ def known(w, p):
     return None
 
 
+def migrated_worlds():
+    """a test migrated from MatchStandaloneSnapshot to MatchStandaloneJSON: the old `<N>_1.snap` (holding JSON text) is
+    still there, `<N>_1.snap.json` does not exist yet.  The call addresses the `.snap.json` location - it records there
+    (or fails where creation is not allowed) - and what Clean then keeps is the file the run addressed"""
+    from core import World, hx, Line, parse_fs
+    from gen import mode_line, cfg_line
+    import suites
+    worlds = []
+    for k, (ci, upd) in enumerate([(False, ''), (False, 'clean'), (True, ''), (False, 'true')]):
+        w = World('c07-migrated-%d' % k)
+        w.add(mode_line(ci, upd))
+        w.add(cfg_line(1, 'snaps'))
+        w.add('fsput %s %s' % (hx('snaps/TestMig_1.snap'), hx(b'{\n "a": 1\n}')))
+        w.add('begin 1 %s' % hx(b'TestMig'))
+        if ci:
+            w.add('sajson 1 1 s %s' % hx(b'{"a":1}'), ('missing-json-location-fails', suites.exp_one_error_no_write))
+        else:
+            def added(line, raw, ww):
+                names = [p_.rsplit(b'/', 1)[-1] for p_ in line.writes if not p_.endswith(b'/')]
+                if [k_ for k_, _ in line.events] != ['L'] or names != [b'TestMig_1.snap.json']:
+                    return 'the call addresses TestMig_1.snap.json, which does not exist: it is recorded there; got events %r writes %r' % ([(k_, v[:30]) for k_, v in line.events], names)
+                return None
+            w.add('sajson 1 1 s %s' % hx(b'{"a":1}'), ('json-location-recorded', added))
+        w.add('end 1')
+        w.add('clean - - 1')
+
+        def kept(line, raw, ww, ci=ci, upd=upd):
+            fs = parse_fs(raw)
+            names = sorted(p_.rsplit(b'/', 1)[-1] for p_ in fs)
+            if not ci and b'TestMig_1.snap.json' not in names:
+                return 'the file the run addressed (TestMig_1.snap.json) is gone after Clean: %r' % names
+            return None
+        w.add('fsdump', ('addressed-file-kept', kept))
+        worlds.append(w)
+    return worlds
+
+
 def run(ctx):
     g = Gen(ctx.seed * 1000003 + int('C07'[1:]))
     n = 150 if ctx.tier == 'quick' else 4000
@@ -37,4 +74,5 @@ def run(ctx):
     worlds += cw.extra_worlds('c07', g, ctx.tier, ORACLES)
     run_suite(ctx, 'clean.C07', worlds, known=known, chunk=200)
     run_suite(ctx, 'clean.symlinked-dir', cw.symlink_worlds('c07'), known=known, use_model=False)
+    run_suite(ctx, 'clean.migrated-standalone', migrated_worlds(), known=known)
     findings.report(ctx, 'C07')
